@@ -146,7 +146,9 @@ func oneRun(r *vkit.R, idx int, g *vkit.Rand, c tbCase) {
 	// in some runs, real changes of (qps, burst). One goroutine (Sync is single-threaded by contract).
 	var stop int32
 	var swg sync.WaitGroup
-	var nNoop int
+	var nNoop, nModeFlips int
+	var nRealKinds [3]int
+	remoteMode := false
 	if c.Noop || c.Reconfigs > 0 {
 		swg.Add(1)
 		sg := g.Fork("sync")
@@ -158,18 +160,29 @@ func oneRun(r *vkit.R, idx int, g *vkit.Rand, c tbCase) {
 				time.Sleep(time.Duration(200+sg.Intn(1800)) * time.Microsecond)
 				k++
 				se := syncEv{}
+				between := -1 // >= 0: a compound reconfiguration (the schema disappears / changes type in between)
 				if realLeft > 0 && k%25 == 0 {
 					realLeft--
-					np := pairs[sg.Intn(len(pairs))]
-					if np[0] == curQ && np[1] == curB {
-						np = [2]int32{curQ + 1, curB + 1}
+					switch kind := sg.Intn(4); kind {
+					case 0, 1: // new (qps, burst)
+						np := pairs[sg.Intn(len(pairs))]
+						if np[0] == curQ && np[1] == curB {
+							np = [2]int32{curQ + 1, curB + 1}
+						}
+						curQ, curB = np[0], np[1]
+						nRealKinds[0]++
+					case 2: // schema deleted and re-added with the SAME values (a new bucket: legitimately full again)
+						between = 0
+						nRealKinds[1]++
+					case 3: // type toggled to max-in-flight and back, same values
+						between = 1
+						nRealKinds[2]++
 					}
-					curQ, curB = np[0], np[1]
 					se.real = true
 				} else if !c.Noop {
 					continue
 				} else {
-					switch k % 3 {
+					switch k % 4 {
 					case 0: // identical spec
 					case 1:
 						filler++
@@ -179,11 +192,31 @@ func oneRun(r *vkit.R, idx int, g *vkit.Rand, c tbCase) {
 						} else {
 							strategy = ""
 						}
+					case 3:
+						// the cluster's limiter type flips (feature gate / --rate-limiter): without limiter client sets the
+						// remote mode falls back to the same local bucket, which must not be refilled by the flip
+						remoteMode = !remoteMode
+						if remoteMode {
+							lim.ResetLimiter("remote")
+						} else {
+							lim.ResetLimiter("local")
+						}
+						nModeFlips++
 					}
 					nNoop++
 				}
 				se.qps, se.burst = curQ, curB
 				se.start = bed.Now()
+				if between >= 0 {
+					sp := tbSpec(curQ, curB, strategy, filler)
+					if between == 0 {
+						sp.Schemas = sp.Schemas[1:]
+					} else {
+						sp.Schemas[0].TokenBucket = nil
+						sp.Schemas[0].MaxRequestsInflight = &proxyv1alpha1.MaxRequestsInflightFlowControlSchema{Max: 1000000}
+					}
+					lim.Sync(sp)
+				}
 				lim.Sync(tbSpec(curQ, curB, strategy, filler))
 				se.done = bed.Now()
 				syncs = append(syncs, se)
@@ -436,6 +469,10 @@ func oneRun(r *vkit.R, idx int, g *vkit.Rand, c tbCase) {
 	r.Count("events_straddling_a_reconfiguration(dropped)", dropped)
 	r.Count("noop_syncs", nNoop)
 	r.Count("real_reconfigurations", len(reals)-1)
+	r.Count("real_reconfigurations_new_values", nRealKinds[0])
+	r.Count("real_reconfigurations_delete_readd_same_values", nRealKinds[1])
+	r.Count("real_reconfigurations_type_toggle_same_values", nRealKinds[2])
+	r.Count("noop_limiter_mode_flips(local<->remote_without_client_sets)", nModeFlips)
 	r.Count("lower_bound_checks", lbDone)
 	r.Count("lower_bound_checks_after_observed_refusal_requiring>=1", lbDrained)
 	r.Count("runs_pattern_"+c.Pattern, 1)
